@@ -173,20 +173,25 @@ Print Assumptions C11_recv_waits_for_saver.
 (* transfer.go clientError / serverError, interpreted from their REGENERATED skeletons
    (Gen/Skel_errtell.v), for EVERY error class [e] (is it a *trzszError, its errType class, its
    trace flag, is its text that of errStoppedAndDeleted) and environment [env] (the transfer's
-   stopAndDelete flag, did deleteCreatedFiles delete anything):
+   stopAndDelete flag, did deleteCreatedFiles delete anything, is the server in the tunnel window:
+   a tunnel connection accepted (the client has greeted there) but the ACT not yet read, so the
+   writer in force is still the in-band one while the client may already listen to the tunnel only):
    * the skeleton is fully understood, cleanInput comes first;
    * the lines sent are exactly [et_client_sends e env] / [et_server_sends e env]: none when the
      error IS the peer's EXIT / fail / FAIL line, otherwise one: `fail` with the deleted names
      after a stop-and-delete that deleted something (client), else `FAIL` or `fail` by the
-     traceback flag;
+     traceback flag; the server, exactly in the tunnel window, writes the same line once more on the
+     accepted tunnel connection (fix f935fb5), so a client on either path gets exactly one;
    * the server resets the terminal (serverExit) exactly once, last; the client never. *)
 Theorem C11_tells_peer : tells_peer_stmt errtell_preds errtell_clientError errtell_serverError.
 Proof. exact tells_peer. Qed.
 Print Assumptions C11_tells_peer.
 
 Theorem C11_tells_peer_one_line : forall e env, et_victim e = false ->
-  (exists w n, et_sends (fst (et_run errtell_preds errtell_clientError e env)) = [ASend w n] /\ (w = WFail \/ w = WFAIL)) /\
-  (exists w, et_sends (fst (et_run errtell_preds errtell_serverError e env)) = [ASend w false] /\ (w = WFail \/ w = WFAIL)).
+  (exists w n, et_sends (fst (et_run errtell_preds errtell_clientError e env)) = [ASend w n false] /\ (w = WFail \/ w = WFAIL)) /\
+  (exists w, (w = WFail \/ w = WFAIL) /\
+     et_sends (fst (et_run errtell_preds errtell_serverError e env)) =
+       ASend w false false :: (if et_window env then [ASend w false true] else [])).
 Proof. exact not_victim_sends_one. Qed.
 Print Assumptions C11_tells_peer_one_line.
 
@@ -246,17 +251,25 @@ Qed.
    converted by the callers (errType "panic", traceback): `FAIL`; the peer's own fail line: nothing *)
 Example C11_tells_timeout :
   let e := {| et_trz := true; et_typ := EtNone; et_trace := false; et_sad := false |} in
-  let v := {| et_flag := false; et_deleted := false |} in
-  fst (et_run errtell_preds errtell_clientError e v) = [AClean; ASend WFail false] /\
-  fst (et_run errtell_preds errtell_serverError e v) = [AClean; ASend WFail false; AExit false].
+  let v := {| et_flag := false; et_deleted := false; et_window := false |} in
+  fst (et_run errtell_preds errtell_clientError e v) = [AClean; ASend WFail false false] /\
+  fst (et_run errtell_preds errtell_serverError e v) = [AClean; ASend WFail false false; AExit false].
 Proof. vm_compute. split; reflexivity. Qed.
 Example C11_tells_panic :
   let e := {| et_trz := true; et_typ := EtOther; et_trace := true; et_sad := false |} in
-  let v := {| et_flag := false; et_deleted := false |} in
-  fst (et_run errtell_preds errtell_clientError e v) = [AClean; ASend WFAIL false].
+  let v := {| et_flag := false; et_deleted := false; et_window := false |} in
+  fst (et_run errtell_preds errtell_clientError e v) = [AClean; ASend WFAIL false false].
 Proof. vm_compute. reflexivity. Qed.
 Example C11_tells_stop_and_delete :
   let e := {| et_trz := true; et_typ := EtNone; et_trace := false; et_sad := true |} in
-  let v := {| et_flag := true; et_deleted := true |} in
-  fst (et_run errtell_preds errtell_clientError e v) = [AClean; ADelete; ASend WFail true].
+  let v := {| et_flag := true; et_deleted := true; et_window := false |} in
+  fst (et_run errtell_preds errtell_clientError e v) = [AClean; ADelete; ASend WFail true false].
 Proof. vm_compute. reflexivity. Qed.
+(* a server stopped after the tunnel greeting, before the ACT: the line goes out in-band and on
+   the accepted tunnel connection; the client side never switches its writer *)
+Example C11_tells_tunnel_window :
+  let e := {| et_trz := true; et_typ := EtNone; et_trace := false; et_sad := false |} in
+  let v := {| et_flag := false; et_deleted := false; et_window := true |} in
+  fst (et_run errtell_preds errtell_serverError e v) = [AClean; ASend WFail false false; ASend WFail false true; AExit false] /\
+  fst (et_run errtell_preds errtell_clientError e v) = [AClean; ASend WFail false false].
+Proof. vm_compute. split; reflexivity. Qed.
